@@ -6,9 +6,8 @@ From XV Require Import model.Sched proofs.Sched_lemmas proofs.Sched_inv proofs.S
 Import ListNotations.
 Open Scope Z_scope.
 
-Definition mkjob : list dep -> Z -> bool -> nat -> jobspec :=
-  ltac:(first [ exact (fun d c m i => Build_jobspec d c m i None)
-              | exact (fun d c m i => Build_jobspec d c m i) ]).
+(* written against the scheduler model WITH adoption (HEAD 8520ec3: j_adopt, adopted W j) *)
+Definition mkjob (d : list dep) (c : Z) (m : bool) (i : nat) : jobspec := Build_jobspec d c m i None.
 
 (* 0 fails; 1 <- 0; 2 <- 1 (transitive dependent); 3 <- 0 with a pre-existing success marker;
    4 <- 3 (behind the marker: must still run) ; 5 independent *)
@@ -47,7 +46,7 @@ Qed.
 Example ex_fanc_transitive : fanc W_chain sC 2 /\ j_marker (spec W_chain 2) = false.
 Proof.
   split; [|reflexivity].
-  apply fa_step with (m := 1%nat); [vm_compute; auto|reflexivity|].
+  apply fa_step with (m := 1%nat); [vm_compute; auto|reflexivity|reflexivity|].
   apply fa_direct with (k := 0%nat); [vm_compute; auto|vm_compute; reflexivity].
 Qed.
 
@@ -55,7 +54,7 @@ Qed.
    4 is NOT an instance of the theorem through 3 (fa_step needs marker 3 = false), and indeed runs. *)
 Example ex_marker_cuts : ~ fanc W_chain sC 4.
 Proof.
-  intros F. inversion F as [j k D E|j m D M F']; subst.
+  intros F. inversion F as [j k D E|j m D M AD F']; subst.
   - vm_compute in D. destruct D as [D|[]]. inversion D; subst. vm_compute in E. discriminate.
   - vm_compute in D. destruct D as [D|[]]. inversion D; subst. vm_compute in M. discriminate.
 Qed.
@@ -64,9 +63,9 @@ Qed.
 Example ex_independent_use : launches (jobs sC 4) = 1%nat /\ DONE = code_state (j_code (spec W_chain 4)).
 Proof.
   destruct ex_chain_end as (WF & R & _ & _ & _ & _ & _ & _ & _ & _ & _ & _ & _ & P3 & _ & P4 & _).
-  apply (independent_unaffected W_chain sC 4 DONE WF R P4 eq_refl).
+  apply (independent_unaffected W_chain sC 4 DONE WF R P4 eq_refl eq_refl).
   intros k D. vm_compute in D. destruct D as [D|[]]. inversion D; subst.
-  exact (proj1 (final_truthful W_chain sC 3 DONE WF R P3)).
+  split; [exact (proj1 (final_truthful W_chain sC 3 DONE WF R P3))|reflexivity].
 Qed.
 
 (* ------------------------------------------------------------------ closed form *)
@@ -98,6 +97,9 @@ Section Closed.
   Hypothesis R : reachable W s.
   Hypothesis Q : queue s = [].
   Hypothesis HP : has_pending s W = false.
+  (* no process of an earlier run is still running at submission (see ex_adopted_error_then_done below
+     for what happens otherwise) *)
+  Hypothesis NA : forall j, adopted W j = None.
 
   Let NH := proj1 (no_hang WF PQ R Q HP).
   Let I := reachable_inv W s WF R.
@@ -105,27 +107,27 @@ Section Closed.
   Lemma ok_done : forall j, okjob W j -> spawned (pc (jobs s j)) = true -> pc (jobs s j) = PReturned DONE.
   Proof.
     induction 1 as [j M|j C D IH]; intros S; destruct (NH j S) as (r & P);
-      destruct (final_truthful W s j r WF R P) as (_ & (_ & B) & _).
+      pose proof (final_truthful W s j r WF R P) as FT; rewrite (NA j) in FT; destruct FT as (_ & (_ & B) & _).
     - rewrite (B (or_introl M)) in P. exact P.
     - destruct (j_marker (spec W j)) eqn:M.
       + rewrite (B (or_introl eq_refl)) in P. exact P.
-      + assert (DD : forall k, In (DJob k) (deps W j) -> st (jobs s k) = DONE).
+      + assert (DD : forall k, In (DJob k) (deps W j) -> st (jobs s k) = DONE /\ adopted W k = None).
         { intros k Hk. pose proof (IH k Hk (I_sub I j k S Hk)) as Pk.
-          exact (proj1 (final_truthful W s k DONE WF R Pk)). }
-        destruct (independent_unaffected W s j r WF R P M DD) as (_ & E).
+          split; [exact (proj1 (final_truthful W s k DONE WF R Pk))|apply NA]. }
+        destruct (independent_unaffected W s j r WF R P M (NA j) DD) as (_ & E).
         rewrite E in P. unfold code_state in P. rewrite C in P. exact P.
   Qed.
 
   Lemma ko_error : forall j, kojob W j -> spawned (pc (jobs s j)) = true -> pc (jobs s j) = PReturned ERROR.
   Proof.
     induction 1 as [j M C|j k M D K IH]; intros S; destruct (NH j S) as (r & P).
-    - destruct (final_truthful W s j r WF R P) as (_ & (A & _) & N).
+    - pose proof (final_truthful W s j r WF R P) as FT; rewrite (NA j) in FT; destruct FT as (_ & (A & _) & N).
       assert (X : r <> DONE).
       { intros E. destruct (A E) as [Y|(_ & Y)]; [rewrite M in Y; discriminate|contradiction]. }
       rewrite (N X) in P. exact P.
     - pose proof (IH (I_sub I j k S D)) as Pk.
       pose proof (returned_error_fanc W s j k WF R D Pk) as F.
-      destruct (failed_ancestor_not_launched W s j r WF R F M) as (_ & X).
+      destruct (failed_ancestor_not_launched W s j r WF R F M (NA j)) as (_ & X).
       destruct (X P) as (E & _). rewrite E in P. exact P.
   Qed.
 
@@ -142,15 +144,15 @@ Section Closed.
   Proof.
     intros j S. split; [intros H; apply ok_done; auto|]. split; [intros H; apply ko_error; auto|]. split.
     - intros M D. destruct (NH j S) as (r & P).
-      assert (DD : forall k, In (DJob k) (deps W j) -> st (jobs s k) = DONE).
+      assert (DD : forall k, In (DJob k) (deps W j) -> st (jobs s k) = DONE /\ adopted W k = None).
       { intros k Hk. pose proof (ok_done k (D k Hk) (I_sub I j k S Hk)) as Pk.
-        exact (proj1 (final_truthful W s k DONE WF R Pk)). }
-      destruct (independent_unaffected W s j r WF R P M DD) as (L & E). split; [exact L|]. rewrite <- E. exact P.
+        split; [exact (proj1 (final_truthful W s k DONE WF R Pk))|apply NA]. }
+      destruct (independent_unaffected W s j r WF R P M (NA j) DD) as (L & E). split; [exact L|]. rewrite <- E. exact P.
     - intros (M & k & D & K).
       pose proof (ko_error k K (I_sub I j k S D)) as Pk.
       pose proof (returned_error_fanc W s j k WF R D Pk) as F.
       destruct (NH j S) as (r & P).
-      destruct (failed_ancestor_not_launched W s j r WF R F M) as (L & X).
+      destruct (failed_ancestor_not_launched W s j r WF R F M (NA j)) as (L & X).
       destruct (X P) as (E & FD). rewrite E in P. auto.
   Qed.
 
@@ -175,6 +177,11 @@ Section Closed.
 End Closed.
 
 (* the closed theorem has a non-trivial instance: the end of the run of W_chain *)
+Lemma na_W_chain : forall j, adopted W_chain j = None.
+Proof.
+  intros j. do 6 (destruct j as [|j]; [reflexivity|]). unfold adopted, spec. simpl. destruct j; reflexivity.
+Qed.
+
 Example ex_closed_instance :
   pc (jobs sC 2) = PReturned ERROR /\ launches (jobs sC 2) = 0%nat /\
   pc (jobs sC 4) = PReturned DONE /\ launches (jobs sC 4) = 1%nat.
@@ -182,8 +189,8 @@ Proof.
   destruct ex_chain_end as (WF & R & Q & HP & _).
   assert (S2 : spawned (pc (jobs sC 2)) = true) by (vm_compute; reflexivity).
   assert (S4 : spawned (pc (jobs sC 4)) = true) by (vm_compute; reflexivity).
-  destruct (audit_results_closed W_chain sC WF posreq_W_chain R Q HP 2 S2) as (_ & _ & _ & C2).
-  destruct (audit_results_closed W_chain sC WF posreq_W_chain R Q HP 4 S4) as (_ & _ & U4 & _).
+  destruct (audit_results_closed W_chain sC WF posreq_W_chain R Q HP na_W_chain 2 S2) as (_ & _ & _ & C2).
+  destruct (audit_results_closed W_chain sC WF posreq_W_chain R Q HP na_W_chain 4 S4) as (_ & _ & U4 & _).
   assert (K0 : kojob W_chain 0) by (apply ko_own; [reflexivity|vm_compute; discriminate]).
   assert (K1 : kojob W_chain 1) by (apply ko_dep with (k := 0%nat); [reflexivity|vm_compute; auto|exact K0]).
   destruct C2 as (L2 & P2 & _).
@@ -218,8 +225,42 @@ Proof.
   repeat split; vm_compute; reflexivity.
 Qed.
 
+(* 4. ADOPTION: ERROR is not absorbing, and a dependent is cancelled although every job it depends on
+   ends DONE.  Job 1's process was left running by an earlier scheduler (adopted; it will exit 0);
+   its input job 0 fails now.  While the adopted process runs, `dependencychanged` marks job 1 ERROR
+   (it only tests `finished()`, and RUNNING is not finished); job 2, submitted in that window, sees
+   FAIL and is cancelled for good; then the adopted process ends and job 1 becomes DONE.
+   At the end: job 1 DONE (after having shown ERROR), job 2 ERROR/DEPENDENCY with cur = [OK].
+   The committed theorems carve this out by hypothesis (`adopted W j = None`,
+   `adopted W k = None` for the dependencies, `stab` requires past_loop for ERROR) and the oracle
+   accepts it (notes/C06.md "literal behaviour of the code ... accepted by the oracle").  It
+   contradicts both "finished states are absorbing" (C06) and "ends in error" for job 1 /
+   containment for job 2 (C07); it should be an open finding, not an accepted behaviour.         *)
+Definition W_ad : workload :=
+  {| w_jobs := [ Build_jobspec [] 1 false 0 None;
+                 Build_jobspec [DJob 0] 0 false 1 (Some (Some 0, true));
+                 Build_jobspec [DJob 1] 0 false 2 None ]; w_tokens := [] |}.
+Definition X_ad1 := [XSubmit 0; XSubmit 1; XDeliver 0; XDeliver 0; XDeliver 0; XDeliver 0]%nat.
+Definition X_ad2 := X_ad1 ++ [XSubmit 2; XDeliver 1; XDeliver 1; XDeliver 2; XWait]%nat.
+Example ex_adopted_error_then_done :
+  let s1 := final W_ad all_fixed (expand W_ad all_fixed (init W_ad) X_ad1) in
+  let s2 := final W_ad all_fixed (expand W_ad all_fixed (init W_ad) X_ad2) in
+  wf W_ad = true /\ reachable W_ad s1 /\ reachable W_ad s2 /\
+  st (jobs s1 1) = ERROR /\ pc (jobs s1 1) = PExt AAdopt /\
+  pc (jobs s2 1) = PReturned DONE /\ launches (jobs s2 1) = 0%nat /\
+  pc (jobs s2 2) = PReturned ERROR /\ fdep (jobs s2 2) = true /\ launches (jobs s2 2) = 0%nat /\
+  cur (jobs s2 2) = [DOK] /\ (forall k, In (DJob k) (deps W_ad 2) -> st (jobs s2 k) = DONE) /\
+  queue s2 = [] /\ has_pending s2 W_ad = false /\ wst s2 = WRaised.
+Proof.
+  cbv zeta. split; [reflexivity|]. split; [apply reachable_final; vm_compute; reflexivity|].
+  split; [apply reachable_final; vm_compute; reflexivity|].
+  repeat split; try (vm_compute; reflexivity).
+  intros k D. vm_compute in D. destruct D as [D|[]]. inversion D; subst. vm_compute. reflexivity.
+Qed.
+
 Print Assumptions ex_chain_end.
 Print Assumptions audit_results_closed.
 Print Assumptions audit_every_job_classified.
 Print Assumptions ex_closed_instance.
 Print Assumptions ex_dependent_of_first_attempt.
+Print Assumptions ex_adopted_error_then_done.
